@@ -36,7 +36,7 @@ Qed.
 
 Lemma count_inbound_snoc ls l :
   count_inbound (ls ++ [l]) =
-  (count_inbound ls + match l with B_inbound _ _ => 1 | B_inbound_handle _ _ _ => 1 | _ => 0 end)%nat.
+  (count_inbound ls + match l with B_inbound _ _ => 1 | B_inbound_handle _ _ _ => 1 | B_q2_release _ _ => 1 | _ => 0 end)%nat.
 Proof.
   induction ls as [|x r IH]; cbn [app count_inbound].
   - destruct l; reflexivity.
@@ -48,6 +48,7 @@ Lemma spec_from_snoc h ls l :
   spec_from h ls ++ match l with
                     | B_inbound k m => [Deliver k m (last_handle_from h ls)]
                     | B_inbound_handle k m _ => [Deliver k m (last_handle_from h ls)]
+                    | B_q2_release k m => [Deliver k m (last_handle_from h ls)]
                     | _ => []
                     end.
 Proof.
@@ -68,6 +69,10 @@ Lemma spec_current_from_snoc h c ls l :
                                | Some k' => if Nat.eqb k k' then Some (Deliver k m (last_handle_from h ls)) else None
                                | None => None
                                end]
+  | B_q2_release k m => [match current_from c ls with
+                         | Some k' => if Nat.eqb k k' then Some (Deliver k m (last_handle_from h ls)) else None
+                         | None => None
+                         end]
   | _ => []
   end.
 Proof.
@@ -152,6 +157,15 @@ Proof.
   intros H; injection H as <- <-. exists c, hh. repeat split; assumption.
 Qed.
 
+(* a PUBREL of a stored message is a guarded update that keeps handler and phase *)
+Lemma q2_release_inv s k m s' e :
+  step s (B_q2_release k m) = Next s' e ->
+  on_client s k reader_runs (unstore m) (fun c => [Deliver k m (c_handler c)]) = Next s' e.
+Proof.
+  unfold step, step_gen. destruct (nth_error (clients s) k) as [c0|]; [|discriminate].
+  destruct (sb_lookup m (c_stored c0)); [|discriminate]. cbn. intros H; exact H.
+Qed.
+
 (* what one step does to RetryClient.handler and RetryClient.cli *)
 Lemma step_rc s l s' e :
   step s l = Next s' e ->
@@ -159,6 +173,7 @@ Lemma step_rc s l s' e :
 Proof.
   intros H; destruct l;
     try (apply inbound_handle_inv in H as (c & hh & _ & _ & _ & -> & _); reflexivity);
+    try (apply q2_release_inv in H; apply on_client_inv in H as (c & _ & _ & -> & _); reflexivity);
     unfold step, step_gen in H; cbn in H;
     try (apply on_client_inv in H as (c & _ & _ & -> & _); reflexivity).
   - injection H as <- _. reflexivity.
@@ -175,6 +190,7 @@ Lemma step_cur s l s' e :
 Proof.
   intros H; destruct l;
     try (apply inbound_handle_inv in H as (c & hh & _ & _ & _ & -> & _); reflexivity);
+    try (apply q2_release_inv in H; apply on_client_inv in H as (c & _ & _ & -> & _); reflexivity);
     unfold step, step_gen in H; cbn in H;
     try (apply on_client_inv in H as (c & _ & _ & -> & _); reflexivity).
   - injection H as <- _. reflexivity.
@@ -193,10 +209,13 @@ Lemma step_events s l s' e :
                                e = [Deliver k m (c_handler c)]
   | B_inbound_handle k m _ => exists c, nth_error (clients s) k = Some c /\ reader_runs (c_phase c) = true /\
                                         c_handler c <> None /\ e = [Deliver k m (c_handler c)]
+  | B_q2_release k m => exists c, nth_error (clients s) k = Some c /\ reader_runs (c_phase c) = true /\
+                                  e = [Deliver k m (c_handler c)]
   | _ => e = []
   end.
 Proof.
   intros H; destruct l;
+    try (apply q2_release_inv in H; apply on_client_inv in H as (c & Hn & He & _ & ->); exists c; auto);
     try (apply inbound_handle_inv in H as (c & hh & Hn & He & Hh & _ & ->); exists c; rewrite Hh;
          repeat split; try assumption; discriminate);
     unfold step, step_gen in H; cbn in H;
@@ -253,6 +272,8 @@ Lemma step_inv s l s' e : inv s -> step s l = Next s' e -> inv s'.
 Proof.
   intros I H. destruct l;
     try (apply inbound_handle_inv in H as (c & hh & _ & _ & _ & -> & _); apply do_handle_inv);
+    try (apply q2_release_inv in H; eapply inv_on_client; [exact I|exact H|]; intros c He Hp; left;
+         split; [exact Hp | reflexivity]);
     unfold step, step_gen in H; cbn in H.
   - (* U_handle *)
     injection H as <- _. apply do_handle_inv.
@@ -281,6 +302,7 @@ Proof.
   - eapply inv_on_client; [exact I|exact H|]. intros c He Hp. left.
     split; [exact Hp | reflexivity].
   - eapply inv_on_client; [exact I|exact H|]. intros c He Hp. cbn in Hp. discriminate.
+  - eapply inv_on_client; [exact I|exact H|]. intros c He Hp. left. split; [exact Hp | reflexivity].
 Qed.
 
 (* ---------- state reached by a run, in terms of the history ---------- *)
@@ -304,6 +326,7 @@ Proof.
       destruct l; try (rewrite S; reflexivity).
       * destruct S as (c & _ & _ & ->). reflexivity.
       * destruct S as (c & _ & _ & _ & ->). reflexivity.
+      * destruct S as (c & _ & _ & ->). reflexivity.
 Qed.
 
 Lemma run_prefix pre post s evs :
@@ -329,7 +352,7 @@ Proof.
   injection S as <- _. unfold step_gen in E. cbn in E.
   destruct (cur s1) as [k|] eqn:Hc; [|discriminate].
   apply on_client_inv in E as (c & Hn & _ & -> & _).
-  exists k, {| c_handler := rc_handler s1; c_phase := Installed |}. cbn.
+  exists k, {| c_handler := rc_handler s1; c_phase := Installed; c_stored := c_stored c |}. cbn.
   rewrite nth_upd_same, Hn. repeat split; try assumption.
 Qed.
 
@@ -456,6 +479,7 @@ Proof.
     destruct l; try (rewrite S; reflexivity).
     + destruct S as (c & Hn & Hr & ->). apply Hin; assumption.
     + destruct S as (c & Hn & Hr & _ & ->). apply Hin; assumption.
+    + destruct S as (c & Hn & Hr & ->). apply Hin; assumption.
 Qed.
 
 (* ---------- the reconnect loop: every connection, every message ---------- *)
@@ -508,6 +532,7 @@ Proof.
   intros L H. unfold step_loop in H.
   destruct l;
     try (apply inbound_handle_inv in H as (c & hh & _ & _ & _ & -> & _); apply do_handle_live_is_cur; exact L);
+    try (apply q2_release_inv in H; eapply live_is_cur_on_client; [exact L|exact H|]; intros c He Hl; left; exact Hl);
     unfold step, step_gen in H; cbn in H.
   - injection H as <- _. apply do_handle_live_is_cur; exact L.
   - injection H as <- _. intros j d Hj Hl. cbn in Hj |- *.
@@ -530,6 +555,7 @@ Proof.
   - eapply live_is_cur_on_client; [exact L|exact H|]. intros c He Hl. left. exact Hl.
   - eapply live_is_cur_on_client; [exact L|exact H|]. intros c He Hl. left. exact Hl.
   - eapply live_is_cur_on_client; [exact L|exact H|]. intros c He Hl. cbn in Hl. discriminate.
+  - eapply live_is_cur_on_client; [exact L|exact H|]. intros c He Hl. left. exact Hl.
 Qed.
 
 Lemma run_loop_snoc ls l :
@@ -577,6 +603,7 @@ Proof.
     destruct l; try exact S.
     + destruct S as (c & Hn & Hr & ->). rewrite (Hin k c Hn Hr). reflexivity.
     + destruct S as (c & Hn & Hr & _ & ->). rewrite (Hin k c Hn Hr). reflexivity.
+    + destruct S as (c & Hn & Hr & ->). rewrite (Hin k c Hn Hr). reflexivity.
 Qed.
 
 Lemma spec_from_nth h pre k m post :
@@ -655,6 +682,7 @@ Lemma step_agree s t l s' e :
 Proof.
   intros A H. destruct l;
     try (apply inbound_handle_inv in H as (c & hh & _ & _ & _ & -> & _); apply do_handle_agree; exact A);
+    try (apply q2_release_inv in H; eapply on_client_keep_agree; [exact A|exact H|reflexivity]);
     unfold step, step_gen in H; cbn in H; cbn [hist_step fst].
   - injection H as <- _. apply do_handle_agree; exact A.
   - injection H as <- _. destruct A as (Hr & Hc & Hm). unfold agree. cbn.
@@ -666,6 +694,7 @@ Proof.
     apply on_client_inv in H as (c & _ & _ & -> & _). rewrite <- Hc.
     unfold agree. cbn. rewrite <- Hr, <- Hm. repeat split; try assumption.
     apply map_upd_put. reflexivity.
+  - eapply on_client_keep_agree; [exact A|exact H|reflexivity].
   - eapply on_client_keep_agree; [exact A|exact H|reflexivity].
   - eapply on_client_keep_agree; [exact A|exact H|reflexivity].
   - eapply on_client_keep_agree; [exact A|exact H|reflexivity].
@@ -693,6 +722,7 @@ Proof.
   intros I A H. apply step_events in H. destruct l; cbn [hist_step snd]; try exact H.
   - destruct H as (c & Hn & Hr & ->). rewrite (found_is_entitled s t k c I A Hn Hr). reflexivity.
   - destruct H as (c & Hn & Hr & _ & ->). rewrite (found_is_entitled s t k c I A Hn Hr). reflexivity.
+  - destruct H as (c & Hn & Hr & ->). rewrite (found_is_entitled s t k c I A Hn Hr). reflexivity.
 Qed.
 
 Lemma run_hist ls : forall s evs,
@@ -768,6 +798,60 @@ Proof.
     rewrite nth_set_nth_other; [reflexivity|]. intros ->. apply Hc. reflexivity.
 Qed.
 
+(* ---------- QoS 2 exchanges whose PUBLISH and PUBREL are separate steps ---------- *)
+(* the hand-over happens at the PUBREL and goes to the handler registered THEN: a Handle call
+   between PUBLISH and PUBREL (first registration, or replacement) counts for that message *)
+Lemma delivery_q2 pre k m post s evs :
+  run (pre ++ B_q2_release k m :: post) = Next s evs ->
+  current_of pre = Some k ->
+  nth_error evs (count_inbound pre) = Some (Deliver k m (last_handle pre)).
+Proof.
+  intros H Hk. destruct (run_prefix _ _ _ _ H) as (s1 & evs1 & R & S).
+  destruct (run_state _ _ _ R) as (I & Hrc & Hcur & Hlen).
+  cbn [run_from] in S. destruct (step_gen faithful s1 (B_q2_release k m)) as [s2 e| | |] eqn:E; try discriminate.
+  fold (step s1 (B_q2_release k m)) in E. apply step_events in E as (c & Hn & Hr & ->).
+  apply run_from_events_extend in S as [t ->].
+  rewrite <- app_assoc, nth_error_app2 by lia. rewrite Hlen, Nat.sub_diag. cbn.
+  rewrite <- Hrc. f_equal. f_equal. apply (I k c); [rewrite Hcur; exact Hk|exact Hn|].
+  destruct (c_phase c); try discriminate; reflexivity.
+Qed.
+
+Lemma spec_every_publish_release ls k m d :
+  spec_every (ls ++ [B_q2_publish k m d]) = spec_every ls /\
+  spec_every (ls ++ [B_q2_publish k m d; B_q2_release k m]) =
+  spec_every ls ++ [Deliver k m (entitled (hist_of ls) k)].
+Proof.
+  unfold spec_every, hist_of. rewrite !hist_from_app.
+  destruct (hist_from hist_init [] ls) as [t1 e1]. cbn. rewrite !app_nil_r. split; reflexivity.
+Qed.
+
+(* a QoS 2 PUBLISH processed on a connection — first transmission or the DUP=1 retransmission that is
+   the only copy a NEW connection ever sees — is released by the PUBREL that follows it: handed to
+   the handler the message is entitled to *)
+Lemma q2_publish_then_release ls k m d s evs :
+  run (ls ++ [B_q2_publish k m d]) = Next s evs ->
+  exists s', run (ls ++ [B_q2_publish k m d; B_q2_release k m]) = Next s'
+                 (evs ++ [Deliver k m (entitled (hist_of ls) k)]).
+Proof.
+  intros H.
+  assert (E : exists s' e, step s (B_q2_release k m) = Next s' e).
+  { destruct (run_prefix _ _ _ _ H) as (s1 & evs1 & _ & S). cbn [run_from] in S.
+    destruct (step_gen faithful s1 (B_q2_publish k m d)) as [s2 e2| | |] eqn:E2; try discriminate.
+    injection S as <- _. unfold step_gen in E2. cbn in E2.
+    apply on_client_inv in E2 as (c & Hn & Hr & -> & _).
+    unfold step, step_gen, on_client. cbn. rewrite nth_upd_same, Hn. cbn. rewrite N.eqb_refl. cbn.
+    rewrite Hr. eexists. eexists. reflexivity. }
+  destruct E as (s' & e & E). exists s'.
+  assert (R : run (ls ++ [B_q2_publish k m d; B_q2_release k m]) = Next s' (evs ++ e)).
+  { replace (ls ++ [B_q2_publish k m d; B_q2_release k m]) with ((ls ++ [B_q2_publish k m d]) ++ [B_q2_release k m])
+      by (rewrite <- app_assoc; reflexivity).
+    unfold run, run_gen in *. rewrite run_from_snoc, H. unfold step in E. rewrite E. reflexivity. }
+  rewrite R. f_equal.
+  pose proof (delivery_every _ _ _ R) as E1. pose proof (delivery_every _ _ _ H) as E0.
+  destruct (spec_every_publish_release ls k m d) as (P1 & P2). rewrite P2 in E1. rewrite P1 in E0.
+  rewrite <- E0 in E1. exact E1.
+Qed.
+
 (* ---------- the Go panic ---------- *)
 (* RetryClient.Connect panics (nil *BaseClient) exactly when no SetClient happened before *)
 Lemma connect_panics_iff_no_client ls s evs :
@@ -801,14 +885,18 @@ Definition ex_schedule : list label :=
     R_dial (Some 99); R_set_client 2; R_connect_begin; R_connect_start 2; R_connack 2;
     B_inbound 2 15; R_connect_return 2; U_handle (Some 6); B_inbound 2 16;
     B_inbound_handle 2 17 (Some 8); B_inbound 2 18; R_end 2;
-    R_dial None; R_set_client 3; R_connect_begin; R_connect_start 3; R_connack 3; B_inbound 3 19 ].
+    R_dial None; R_set_client 3; R_connect_begin; R_connect_start 3; R_connack 3; B_inbound 3 19;
+    B_q2_publish 3 20 false; U_handle (Some 9); B_q2_release 3 20; B_q2_publish 3 21 false; R_end 3;
+    R_dial None; R_set_client 4; R_connect_begin; R_connect_start 4; R_connack 4;
+    B_q2_publish 4 21 true; B_q2_release 4 21 ].
 
 Example ex_schedule_runs :
   exists s, run_loop ex_schedule = Next s
     [ Deliver 0 10 (Some 5); Deliver 0 11 (Some 6); Deliver 0 12 (Some 6);
       Deliver 1 13 None; Deliver 1 14 (Some 7);
       Deliver 2 15 (Some 7); Deliver 2 16 (Some 6);
-      Deliver 2 17 (Some 6); Deliver 2 18 (Some 8); Deliver 3 19 (Some 8) ].
+      Deliver 2 17 (Some 6); Deliver 2 18 (Some 8); Deliver 3 19 (Some 8);
+      Deliver 3 20 (Some 9); Deliver 4 21 (Some 9) ].
 Proof. eexists. vm_compute. reflexivity. Qed.
 
 Example ex_delivery_hyps :
@@ -849,7 +937,7 @@ Definition conn (k : nat) : list label :=
 
 (* Connect does not install the stored handler *)
 Lemma no_install_refuted :
-  exists ls, breaks {| i_store := StoreAlways; i_forward := true; i_install := InstallNever; i_setclient_clears := false; i_lock_through_callback := false |} ls.
+  exists ls, breaks v_no_install ls.
 Proof.
   exists (U_handle (Some 1) :: conn 0 ++ [B_inbound 0 7]).
   split; [eexists; eexists; vm_compute; reflexivity|]. eexists. eexists. vm_compute. split; reflexivity.
@@ -857,7 +945,7 @@ Qed.
 
 (* Connect installs the handler only after BaseClient.Connect returned (seeded change C17-2) *)
 Lemma late_install_refuted :
-  exists ls, breaks {| i_store := StoreAlways; i_forward := true; i_install := InstallAfterReturn; i_setclient_clears := false; i_lock_through_callback := false |} ls.
+  exists ls, breaks v_late_install ls.
 Proof.
   exists (U_handle (Some 1) :: conn 0 ++ [B_inbound 0 7; R_connect_return 0]).
   split; [eexists; eexists; vm_compute; reflexivity|]. eexists. eexists. vm_compute. split; reflexivity.
@@ -865,7 +953,7 @@ Qed.
 
 (* the handler is installed on the first connection only *)
 Lemma first_only_refuted :
-  exists ls, breaks {| i_store := StoreAlways; i_forward := true; i_install := InstallFirstOnly; i_setclient_clears := false; i_lock_through_callback := false |} ls.
+  exists ls, breaks v_first_only ls.
 Proof.
   exists (U_handle (Some 1) :: conn 0 ++ [B_inbound 0 7; R_end 0] ++ conn 1 ++ [B_inbound 1 8]).
   split; [eexists; eexists; vm_compute; reflexivity|]. eexists. eexists. vm_compute. split; reflexivity.
@@ -873,7 +961,7 @@ Qed.
 
 (* Handle does not forward to the current client *)
 Lemma no_forward_refuted :
-  exists ls, breaks {| i_store := StoreAlways; i_forward := false; i_install := InstallAtBegin; i_setclient_clears := false; i_lock_through_callback := false |} ls.
+  exists ls, breaks v_no_forward ls.
 Proof.
   exists (conn 0 ++ [U_handle (Some 1); B_inbound 0 7]).
   split; [eexists; eexists; vm_compute; reflexivity|]. eexists. eexists. vm_compute. split; reflexivity.
@@ -881,14 +969,14 @@ Qed.
 
 (* Handle forwards but does not store (seeded change C17-1: stores only while no client is set) *)
 Lemma store_if_no_client_refuted :
-  exists ls, breaks {| i_store := StoreIfNoClient; i_forward := true; i_install := InstallAtBegin; i_setclient_clears := false; i_lock_through_callback := false |} ls.
+  exists ls, breaks v_store_if_no_client ls.
 Proof.
   exists (conn 0 ++ [U_handle (Some 1); B_inbound 0 7; R_end 0] ++ conn 1 ++ [B_inbound 1 8]).
   split; [eexists; eexists; vm_compute; reflexivity|]. eexists. eexists. vm_compute. split; reflexivity.
 Qed.
 
 Lemma no_store_refuted :
-  exists ls, breaks {| i_store := StoreNever; i_forward := true; i_install := InstallAtBegin; i_setclient_clears := false; i_lock_through_callback := false |} ls.
+  exists ls, breaks v_no_store ls.
 Proof.
   exists (U_handle (Some 1) :: conn 0 ++ [B_inbound 0 7]).
   split; [eexists; eexists; vm_compute; reflexivity|]. eexists. eexists. vm_compute. split; reflexivity.
@@ -896,7 +984,7 @@ Qed.
 
 (* SetClient forgets the stored handler *)
 Lemma setclient_clears_refuted :
-  exists ls, breaks {| i_store := StoreAlways; i_forward := true; i_install := InstallAtBegin; i_setclient_clears := true; i_lock_through_callback := false |} ls.
+  exists ls, breaks v_setclient_clears ls.
 Proof.
   exists (U_handle (Some 1) :: conn 0 ++ [B_inbound 0 7]).
   split; [eexists; eexists; vm_compute; reflexivity|]. eexists. eexists. vm_compute. split; reflexivity.
@@ -906,12 +994,34 @@ Qed.
    replaces the handler through the RetryClient never returns *)
 Lemma lock_through_callback_refuted :
   exists ls, (exists s evs, run_loop ls = Next s evs) /\
-             run_gen {| i_store := StoreAlways; i_forward := true; i_install := InstallAtBegin;
-                        i_setclient_clears := false; i_lock_through_callback := true |} ls = Deadlocked.
+             run_gen v_lock_through_callback ls = Deadlocked.
 Proof.
   exists (U_handle (Some 1) :: conn 0 ++ [B_inbound_handle 0 7 (Some 2); B_inbound 0 8]).
   split; [eexists; eexists; vm_compute; reflexivity|]. vm_compute. reflexivity.
 Qed.
+
+(* a retransmitted (DUP=1) QoS 2 PUBLISH is acknowledged but not stored (seeded change C17-11): after a
+   reconnect the DUP copy is the only one the new connection sees, its PUBREL finds nothing *)
+Lemma q2_dup_not_stored_refuted :
+  exists ls, (exists s evs, run_loop ls = Next s evs) /\ run_gen v_q2_dup_not_stored ls = Disabled.
+Proof.
+  exists (U_handle (Some 1) :: conn 0 ++ [B_q2_publish 0 7 false; R_end 0] ++ conn 1 ++
+          [B_q2_publish 1 7 true; B_q2_release 1 7]).
+  split; [eexists; eexists; vm_compute; reflexivity|]. vm_compute. reflexivity.
+Qed.
+
+(* a QoS 2 message is handed to the handler read when its PUBLISH arrived (seeded change C17-12) *)
+Lemma q2_handler_at_publish_refuted : exists ls, breaks v_q2_handler_at_publish ls.
+Proof.
+  exists (conn 0 ++ [B_q2_publish 0 7 false; U_handle (Some 1); B_q2_release 0 7]).
+  split; [eexists; eexists; vm_compute; reflexivity|]. eexists. eexists. vm_compute. split; reflexivity.
+Qed.
+
+(* scope: the subBuffer is a local of serve(): a message whose PUBLISH was stored by a connection that
+   has ended is NOT released by a PUBREL arriving on the next connection (the step is not enabled) *)
+Example q2_pending_not_carried_over :
+  run (U_handle (Some 1) :: conn 0 ++ [B_q2_publish 0 7 false; R_end 0] ++ conn 1 ++ [B_q2_release 1 7]) = Disabled.
+Proof. vm_compute. reflexivity. Qed.
 
 (* ... while the faithful model passes on every one of these schedules (instance of delivery_meets) *)
 Example faithful_not_broken ls : ~ breaks faithful ls.
